@@ -12,7 +12,7 @@ CHECKS = {
    text="Proof: Coq theorems over ALL byte strings (no length bound) that the uint8 model of StringToNote equals an independent "
         "specification of the 128 names, that names and numbers round-trip, and that the accepted language is exactly an explicit "
         "280-entry table (C11_spec, C11_roundtrip, C11_inverse, C11_table). The model is tied to /repo on every run by sweeping the real "
-        "StringToNote exhaustively over all strings of length <= 3 (quick) / <= 4 (thorough, 18.1 M strings) over [a-zA-Z0-9#- ] plus sampled "
+        "StringToNote exhaustively over all strings of length <= 3 (quick) / <= 4 (thorough, 18.1 M strings) over [a-zA-Z0-9#- ], every byte string of length <= 2 over all 256 byte values, every 3-byte string with one arbitrary byte, plus sampled "
         "longer/arbitrary-byte strings against the proved table, inside coqc (vm_compute), and NoteToPitch/NoteToOctave over 0..127.",
    note="Trusted: Coq kernel + VM; hand-written model; Go regexp/Atoi outside the swept space assumed to behave as on it. No axioms.",
    technique="Coq proof (finite sweep lifted by lemma to all strings) + exhaustive differential correspondence",
@@ -34,7 +34,8 @@ CHECKS = {
         "(Permutation l l' -> same set of (location, multiset of handlers, type)) and that HandlerType depends only on the SET of capabilities "
         "(C20_partition, C20_same_phys, C20_type, C20_order_free, C20_handler_type_set, plus a monitor proved equivalent to the grouping "
         "predicate). Tie to /repo: the real input.Normalize / HandlerType run on all n! orders of multisets up to 5 handlers and on random "
-        "larger multisets, all 512 capability subsets; monitor and view comparison evaluated in coqc on the observed devices.",
+        "larger multisets, all 512 capability subsets, event-node names and hardware ids drawn from small pools so that one process sees the same node/id with "
+        "different capabilities (re-plug); monitor and view comparison evaluated in coqc on the observed devices.",
    note="Trusted: Coq kernel + VM; hand-written model of Normalize/HandlerType/DetermineDeviceType; evdev.Open failing on synthetic handlers (they are still grouped); Device.ID (taken from the first-discovered handler) is outside the view. No axioms.",
    technique="Coq proof by induction over handler lists + exhaustive-permutation differential correspondence",
    design="§5 C20"),
@@ -106,7 +107,8 @@ CHECKS = {
         "action (C04_pair_reset), completing none applies it (C04_single_action); defaults are the initial state (C04_initial); the mapping index stays "
         "in range along every history (C04_mapping_in_range); the original int8 product is refuted (C04_int8_product_refuted, fixed in /repo). "
         "Tie to /repo: a spec interpreter (the theorems' spec_action / reset / formula) runs in coqc against State() and the Note-On triple of every "
-        "event of generated histories (octave runs to +-25, channel/mapping walks past both ends, all pair orders, default extremes, channel x offset grid).",
+        "event of generated histories (octave runs to +-25, channel/mapping walks past both ends, all pair orders, default extremes, channel x offset grid); the messages of "
+        "every press must be exactly the collision rule applied to that triple (silence only when the mode and the holders demand it).",
    note="Trusted: Coq kernel + VM; hand-written device model. Known finding K1 (int8 wrap after 128 steps) is reported as KNOWN-FINDING. No axioms.",
    technique="Coq proof by case analysis of the action table and press path + differential correspondence against a spec interpreter",
    design="§5 C04"),
@@ -114,7 +116,9 @@ CHECKS = {
    text="Proof: Coq theorem for every configuration with parser-guaranteed defaults (1 <= channel <= 16, 0 <= velocity <= 127), EVERY history of key "
         "events (no alternation, any values) and analog samples with bounded data bytes: every message emitted while running and during clean-up is "
         "[status+channel; d1; d2] with status in {0x80,0x90,0xB0,0xE0}, channel < 16, data < 128, and the current channel stays < 16 (C05_wf); the "
-        "run-time monitor is sound for that predicate (C05_monitor_sound); default channel 0 is refuted (C05_default_channel_refuted). Tie to /repo: "
+        "run-time monitor is sound for that predicate (C05_monitor_sound); default channel 0 is refuted (C05_default_channel_refuted); the data bytes of axis "
+        "messages are bounded for every float (pitch bend, C05_sample_fields) and for every int32 axis range / raw value / finite deadzone <= 1-2^-10 "
+        "(controller value, C05_general_axis_messages, from Flocq's real-number semantics; C05_grid_axis_messages by kernel evaluation on the 8-bit grid). Tie to /repo: "
         "corner configurations go through the REAL ParseData (channel 0/1/16/17, velocity 0/1/127/128, offsets) and then the real Device; panic on every "
         "channel, channel walks, hostile key values; the monitor runs in coqc on every implementation message.",
    note="Trusted: Coq kernel + VM; hand-written device model; the bounds on CC / pitch-bend data bytes of analog samples are hypotheses of C05_wf discharged by the float layer (C06). No axioms.",
